@@ -31,7 +31,7 @@ package netconf
 //@ func (*Driver).sendClientCapabilities [C09]
 //@   requires d.SelectedVersion == "1.0" || d.SelectedVersion == "1.1"
 //@   modifies wire, quiet
-//@   ensures #hello-matches-selected result == nil ==> wire == old(wire) ++ (d.SelectedVersion == "1.0" ? v1Dot0Caps : v1Dot1Caps) ++ d.Channel.ReturnChar
+//@   ensures [C09 C03] #hello-matches-selected result == nil ==> wire == old(wire) ++ (d.SelectedVersion == "1.0" ? v1Dot0Caps : v1Dot1Caps) ++ d.Channel.ReturnChar
 
 //@ func (*Driver).ServerCapabilities [C09]
 //@   modifies nothing
